@@ -278,6 +278,6 @@ func TestC19(t *testing.T) {
 		w.Close()
 	}
 	c19Binary(ev)
-	parallelCases(vlib.Scale(7, 28), 4, func(i int) { c19EndToEnd(ev, i) })
+	parallelCases(vlib.Scale(9, 36), 5, func(i int) { c19EndToEnd(ev, i) })
 	finish(t, ev)
 }
